@@ -32,4 +32,16 @@ CLAIMED['C08'] = dict(category='proof',
    note=_ASSUME + 'The topology half is a BOUNDED stand-in (exhaustive over the range the property states, not a proof '
         'for all ring counts); pi is an uninterpreted constant.',
    technique='contract-based deductive verification for geometry (symbolic ring count); bounded run-time contracts for integer topology')
+CLAIMED['C04'] = dict(category='proof',
+   text='Each real update kernel (pin-bundle interior incl. the composite wall-solve+update for adiabatic walls, flowing '
+        'and stagnant bypass, single-node and six-node regions) is decomposed exactly into weights on the previous-level '
+        'temperatures: weights sum to one, off-diagonal and heating weights are >= 0, and the self weight is 1 - dz*S with '
+        'S*limit_class <= 1 for the limit the REAL step-limit functions (_calculate_int_dz, _calculate_byp_dz, '
+        'region_unrodded.calculate_min_dz, all _cons*) compute for that cell\'s neighbour class; the returned limit is <= '
+        'every class limit. With the arithmetic lemma this gives non-negative weights for every dz <= limit, for all real '
+        'inputs.',
+   note=_ASSUME + 'Enumerated ring counts 2,3,4 cover every neighbour class the code distinguishes (7-pin special cases, '
+        '19-pin, >19-pin); constant properties within a step. Not decided: the limit for temperature-dependent coolants '
+        'is evaluated at the two end temperatures only. Gap-coolant kernels of core.py: see C02/C09 status.',
+   technique='contract-based deductive verification (exact affine decomposition of the real kernels + normaliser / sign certificates / z3)')
 NOT_APPLICABLE = {f'C{i:02d}': 'check not built yet in this round (see DESIGN.md section 12 build order)' for i in range(1, 21)}
